@@ -91,3 +91,16 @@ Definition diag_reader (suite : bytes) (i o : V) : option V :=
     let '(frames, lft) := parse_frames (S (length data)) data in
     Some (VL [VL (map (fun f => VL [VN (fst f); Vopt VS (msg_id cx (vnth 1 i) (fst f) (snd f))]) frames); VS lft; vnth 5 i])
   else None.
+
+(** C08, request side: the same client byte stream under different upstream chunkings and
+    handler buffer sizes hands the backend the same bytes and the same final status *)
+Definition drained (o : V) : V :=
+  let reads := vl o in
+  VL [VS (flat_map (fun r => vs (vnth 0 r)) reads); match rev reads with r :: _ => vnth 1 r | [] => VS [] end].
+Definition mon_reader_meta : monitor_t := fun suite i o =>
+  if name_is suite "reader.meta" then
+    match map drained (vl o) with
+    | [] => Some true
+    | x :: r => Some (forallb (V_eqb x) r)
+    end
+  else None.
